@@ -88,9 +88,12 @@ Theorem c17_complete_exact_refuted_builtin_redeclared :
 Proof. exact w_builtin_redeclared_ok. Qed.
 Print Assumptions c17_complete_exact_refuted_builtin_redeclared.
 
+(* HISTORICAL: before fix root-operation-invented the merge named an object type called Mutation / Subscription
+   a root although the schema definition did not (generate_v1 = today's generator on that merge) *)
 Theorem c17_complete_exact_refuted_root_invented :
-  wf_schema w_root_invented = true /\ lossy_clauses w_root_invented = [#"root-invented"]
-  /\ exact_of_generate_b w_root_invented = false /\ roundtrip_b w_root_invented = false.
+  wf_schema w_root_invented = true
+  /\ exact_of_generate_b_v1 w_root_invented = false /\ roundtrip_b_v1 w_root_invented = false
+  /\ lossy_clauses w_root_invented = [] /\ exact_of_generate_b w_root_invented = true /\ roundtrip_b w_root_invented = true.
 Proof. exact w_root_invented_ok. Qed.
 Print Assumptions c17_complete_exact_refuted_root_invented.
 
